@@ -22,6 +22,8 @@ CONSTANTS
   WsLens,     \* set of lengths of whitespace-only lines (in characters of Unit[1]); {} = none
   Blank,      \* TRUE: empty lines allowed
   Suffix,     \* text appended to every code line (e.g. a multi-byte character), <<>> for none
+  MbCode,     \* TRUE: code lines consist of multi-byte characters only (pairwise distinct per line)
+  CodeA, CodeB, \* text between 'c' and the line number / between the number and ';' (interior blanks), <<>> for none
   PastTo, FutureTo, \* `to` values for T / F
   Tos,        \* `to` values for the kinds "T1", "T2", ... (histories): sequence
   Names       \* marker names for the kinds "M1", "M2", ... (histories): sequence
@@ -79,7 +81,8 @@ RECURSIVE Indent(_)
 Indent(k) == IF k <= 0 THEN <<>> ELSE Unit \o Indent(k - 1)
 
 LineTextOf(l) ==
-  IF l.k = "code" THEN Indent(l.ind) \o <<99>> \o Digits(l.n) \o <<59>> \o Suffix       \* c<n>;
+  IF l.k = "code" THEN Indent(l.ind) \o (IF MbCode THEN <<12354 + l.n, 233, 128512 + l.n>>                  \* 3-, 2-, 4-byte
+                                          ELSE <<99>> \o CodeA \o Digits(l.n) \o CodeB \o <<59>>) \o Suffix  \* c<n>;
   ELSE IF l.k = "blank" THEN <<>>
   ELSE IF l.k = "ws" THEN RepeatCh(Unit[1], l.ind)
   ELSE IF l.k = "open" THEN Indent(l.ind) \o OpenTag(l.kind, l.n)
